@@ -13,6 +13,17 @@ reg("C17",
                  "condition-variable waits are modelled for a single thread: mutex released, verif_wait_hook (the environment) runs, then notified or timed out"],
     )
 
+reg("C17",
+    name="C17_drain", src="harness/C17_drain.cpp",
+    anchor_files=["src/hgraph/runtime/executor.cpp"],
+    quick=dict(defs=dict(GROUPS=350, FOLLOW=3), symx=dict(shards=1, **{"max-wall": 600})),
+    thorough=dict(defs=dict(GROUPS=700, FOLLOW=2), symx=dict(shards=1, **{"max-wall": 1200})),
+    reach=["end", "run_returned", "more_than_1024_smallest_steps_in_total"],
+    bounds="a real-time run whose one-second window lies 30/60/90 s (enumerated) behind the wall clock; one source alternating a step of 2..5 us (enumerated) with FOLLOW "
+           "smallest-step follow-ups, GROUPS times: more than 1024 smallest-step cycles in total, never more than FOLLOW in a row; every value concrete per path",
+    outside="the cut itself (>= 1024 consecutive smallest steps after the wall clock passed the end time) is permitted by the statement and not asserted",
+    )
+
 META = dict(
     level="bounded symbolic model checking of the real-time run loop (executor.cpp run_storage/advance_realtime with the real condition-variable wait_for, "
           "graph.cpp, node.cpp, node_scheduler.h) under a virtual wall clock",
